@@ -112,6 +112,21 @@ func gradCheck(k *fw.K, in ref.Instr, xs []*ref.T, tracked []bool, g *ref.T, kno
 				k.Count("results_consumed_by_a_"+c.Op+"_before_the_weighting", 1)
 			}
 		}
+		// one time in four the result (and every non-leaf stage above it) has further consumers that are built before the
+		// back-propagation and never back-propagated themselves (a logged statistic, a second head that is dropped)
+		if k.Rng.Intn(4) == 0 {
+			_ = ry.Scale(2)
+			_ = top.Scale(-1)
+			if ry.NElems() > 0 {
+				_, _ = ry.Add(ry)
+			}
+			for i, l := range leaves {
+				if tracked[i] && l != nil {
+					_ = l.Scale(3)
+				}
+			}
+			k.Count("cases_with_abandoned_consumers_of_the_result_and_the_operands", 1)
+		}
 		stage = "back-propagation"
 		perr = weightedBackprop(top, gtop)
 	}); p != nil {
@@ -305,4 +320,6 @@ var CollidingShapes = [][][]int{
 	// shapes of DIFFERENT rank that share a prefix or a suffix (a key built from the first or last few sizes, or one that ignores the rank)
 	{{2, 1, 2, 2, 3}, {2, 1, 2, 2, 5}, {2, 1, 2, 2}}, {{1, 2, 1, 2, 2, 2}, {1, 2, 1, 2, 2, 3}, {1, 2, 1, 2, 2}}, {{2, 3}, {2, 3, 1}, {2, 3, 2}, {1, 2, 3}},
 	{{3}, {3, 1}, {1, 3}, {1}}, {{2, 2}, {64}, {2, 1, 2}}, {{4, 4}, {128}, {4}},
+	// shapes that coincide under polynomial hashes of their sizes (31a + b, 37a + b, 33a + b, 131a + b) although nothing else relates them
+	{{3, 5}, {2, 36}, {1, 67}}, {{2, 3}, {1, 40}}, {{2, 2}, {1, 33}}, {{2, 4}, {1, 35}, {1, 37}}, {{2, 1}, {1, 132}}, {{2, 1, 3}, {1, 32, 3}}, {{3, 2, 2}, {2, 33, 2}},
 }
